@@ -114,11 +114,13 @@ def Scenario.predOut (sc : Scenario) (k : Nat) : PredOut := (sc.pred.lookup k).g
 def Scenario.cancelIn (sc : Scenario) : Option Nat :=
   if sc.cancel.startsWith "in:" then (sc.cancel.drop 3).toNat? else none
 
-def vclasses : List String := ["str", "err", "rt", "struct"]
+/-- panic value classes: string, error value, runtime error, struct, and `pe`: a `*cff.PanicError`
+    obtained from another directive (the `must(err)` idiom). -/
+def vclasses : List String := ["str", "err", "rt", "struct", "pe"]
 /-- Panic value class: `kind` ∈ t p q s m S M as in progspec.VClass. -/
 def Scenario.vclass (sc : Scenario) (kind : Char) (a b : Nat) : String :=
   let off := if kind == 'p' || kind == 'S' || kind == 'M' then 1 else 0
-  vclasses.getD ((sc.pv + a + b + off) % 4) "?"
+  vclasses.getD ((sc.pv + a + b + off) % 5) "?"
 
 /-! ### parsing of spec and scenario lines -/
 
